@@ -116,6 +116,35 @@ Proof.
   - rewrite Z.eqb_sym, E. cbn [orb]. now apply IH.
 Qed.
 
+Lemma In_insZ x y l : In x (insZ y l) <-> x = y \/ In x l.
+Proof.
+  induction l as [|a l IH]; cbn [insZ In]; [intuition|].
+  destruct (y <=? a); cbn [In]; [intuition|]. rewrite IH. intuition.
+Qed.
+Lemma In_sortZ x l : In x (sortZ l) <-> In x l.
+Proof.
+  unfold sortZ. induction l as [|a l IH]; cbn [fold_right In]; [reflexivity|]. rewrite In_insZ, IH. intuition.
+Qed.
+Lemma NoDup_insZ y l : ~ In y l -> NoDup l -> NoDup (insZ y l).
+Proof.
+  induction l as [|a l IH]; intros Hn Hd; cbn [insZ]; [repeat constructor; auto|].
+  destruct (y <=? a); [constructor; auto|].
+  inversion Hd as [|? ? Ha Hd']; subst. constructor.
+  - rewrite In_insZ. intros [->|H]; [apply Hn; now left|contradiction].
+  - apply IH; auto. intros H. apply Hn. now right.
+Qed.
+Lemma NoDup_sortZ l : NoDup l -> NoDup (sortZ l).
+Proof.
+  unfold sortZ. induction l as [|a l IH]; intros Hd; cbn [fold_right]; [constructor|].
+  inversion Hd as [|? ? Ha Hd']; subst. apply NoDup_insZ; auto.
+  change (~ In a (sortZ l)). now rewrite In_sortZ.
+Qed.
+Lemma In_cogroup_keys {A B} x (b : list (Z * A)) (st : list (Z * B)) :
+  In x (cogroup_keys b st) <-> In x (map fst b ++ map fst st).
+Proof. unfold cogroup_keys. now rewrite In_sortZ, In_nodupZ. Qed.
+Lemma NoDup_cogroup_keys {A B} (b : list (Z * A)) (st : list (Z * B)) : NoDup (cogroup_keys b st).
+Proof. unfold cogroup_keys. apply NoDup_sortZ, NoDup_nodupZ. Qed.
+
 Lemma keys_state_step u b st : map fst (state_step u b st) = cogroup_keys b st.
 Proof. unfold state_step. rewrite map_map. cbn [fst]. apply map_id. Qed.
 
@@ -123,11 +152,10 @@ Lemma vals_state_step u b st k :
   vals k (state_step u b st) =
   if memZ k (map fst b ++ map fst st) then [u (vals k b) (last (vals k st) VNone)] else [].
 Proof.
-  unfold state_step. rewrite (vals_map_keys (fun k' => u (vals k' b) (last (vals k' st) VNone))) by apply NoDup_nodupZ.
-  unfold cogroup_keys.
+  unfold state_step. rewrite (vals_map_keys (fun k' => u (vals k' b) (last (vals k' st) VNone))) by apply NoDup_cogroup_keys.
   destruct (memZ k (map fst b ++ map fst st)) eqn:E.
-  - apply memZ_In in E. apply In_nodupZ in E. apply memZ_In in E. now rewrite E.
-  - apply memZ_false in E. rewrite <- In_nodupZ in E. apply memZ_false in E. now rewrite E.
+  - apply memZ_In in E. apply In_cogroup_keys in E. apply memZ_In in E. now rewrite E.
+  - apply memZ_false in E. rewrite <- In_cogroup_keys in E. apply memZ_false in E. now rewrite E.
 Qed.
 
 (* one interval, seen from one key: the state is created by the first batch that mentions the key *)
@@ -227,7 +255,7 @@ Proof.
 Qed.
 
 Lemma state_keys_nodup n : NoDup (map fst (state_after u kq n)).
-Proof. destruct n; [constructor|]. cbn [state_after]. rewrite keys_state_step. apply NoDup_nodupZ. Qed.
+Proof. destruct n; [constructor|]. cbn [state_after]. rewrite keys_state_step. apply NoDup_cogroup_keys. Qed.
 
 (* state_spec: a key first mentioned in batch b (intervals before: pre, after: post) *)
 Lemma state_spec_seen ts k pre b post :
@@ -255,7 +283,7 @@ Qed.
 (* keys never disappear *)
 Lemma state_keys_persist n k : In k (map fst (state_after u kq n)) -> In k (map fst (state_after u kq (S n))).
 Proof.
-  intros H. cbn [state_after]. rewrite keys_state_step. unfold cogroup_keys. apply In_nodupZ, in_or_app. now right.
+  intros H. cbn [state_after]. rewrite keys_state_step. apply In_cogroup_keys, in_or_app. now right.
 Qed.
 
 (* the keys of the state are exactly the keys mentioned so far *)
@@ -264,7 +292,7 @@ Lemma state_keys_exact n k :
 Proof.
   induction n as [|n IH].
   - cbn. split; [tauto|]. intros (b & [] & _).
-  - cbn [state_after]. rewrite keys_state_step. unfold cogroup_keys. rewrite In_nodupZ, in_app_iff, IH, kbatches_S.
+  - cbn [state_after]. rewrite keys_state_step. rewrite In_cogroup_keys, in_app_iff, IH, kbatches_S.
     split.
     + intros [H|(b & Hb & Hk)].
       * exists (kbatch kq n). split; auto. apply in_or_app. right. now left.
@@ -298,7 +326,7 @@ Lemma none_is_a_state :
   state_after u_last [[(0, VInt 3); (0, VNone)]; []] 2 = [(0, VNone)] /\
   state_after u_reset [[(0, VInt 3)]; []; [(0, VInt 1)]] 2 = [(0, VNone)] /\
   state_after u_reset [[(0, VInt 3)]; []; [(0, VInt 1)]] 3 = [(0, VInt 1)] /\
-  state_after u_minopt [[(0, VNone); (1, VInt 2)]; [(1, VNone); (1, VInt (-1))]] 2 = [(1, VInt (-1)); (0, VNone)].
+  state_after u_minopt [[(0, VNone); (1, VInt 2)]; [(1, VNone); (1, VInt (-1))]] 2 = [(0, VNone); (1, VInt (-1))].
 Proof. vm_compute. repeat split. Qed.
 
 (* the other two library functions are NOT of that kind (for them only the reading from the key's first interval
